@@ -29,7 +29,10 @@ KANI += [
     KH("c16_features::c16_euclid_1block", "quick", 1500,
        "euclidean = sqrt(sum (a_i-b_i)^2) bit-exactly; symmetric; 0 on identical vectors; >= 0",
        "one block, 3+3 symbolic integer lanes in [-4,4]", [D + "euclidean"], args=ST),
-    KH("c16_features::c16_cosine_1block", "quick", 1500,
+    KH("c16_features::c16_cosine_1block_small", "quick", 1200,
+       "cosine = dot/sqrt(|a|^2|b|^2) bit-exactly; symmetric; in [-1,1]",
+       "one block, 2+2 symbolic integer lanes in [-4,4]", [D + "cosine"], args=ST),
+    KH("c16_features::c16_cosine_1block", "thorough", 3000,
        "cosine = dot/sqrt(|a|^2|b|^2) bit-exactly; symmetric; in [-1,1]",
        "one block, 3+3 symbolic integer lanes in [-4,4]", [D + "cosine"], args=ST),
     KH("c16_features::c16_cosine_parallel", "quick", 1200,
